@@ -553,19 +553,23 @@ theorem exchangeFrom_last (fuel : Nat) : ∀ (sent : Nat) (m : Method) (b : Body
     unfold exchangeFrom at h ⊢
     simp only at h ⊢
     split at h
-    · simp only [Option.some.injEq] at h
-      exact ⟨m, by rw [← h]; simp⟩
-    · rename_i m' b' _
+    · simp at h
+    · rename_i h0
+      rw [if_neg h0]
       split at h
-      · simp at h
-      · simp only at h
-        obtain ⟨m'', hl⟩ := ih (sent + 1) m' b' rs.tail r h
-        refine ⟨m'', ?_⟩
-        rename_i hsent
-        simp only [hsent, if_false]
-        rw [List.getLast?_cons_of_ne_nil]
-        · exact hl
-        · intro hnil; rw [hnil] at hl; simp at hl
+      · simp only [Option.some.injEq] at h
+        exact ⟨m, by rw [← h]; simp⟩
+      · rename_i m' b' _
+        split at h
+        · simp at h
+        · simp only at h
+          obtain ⟨m'', hl⟩ := ih (sent + 1) m' b' rs.tail r h
+          refine ⟨m'', ?_⟩
+          rename_i hsent
+          simp only [hsent, if_false]
+          rw [List.getLast?_cons_of_ne_nil]
+          · exact hl
+          · intro hnil; rw [hnil] at hl; simp at hl
 
 theorem exchangeFrom_ne_nil (fuel sent : Nat) (m : Method) (b : BodyKind) (rs : List Resp) :
     (exchangeFrom fuel sent m b rs).1 ≠ [] := by
@@ -576,7 +580,9 @@ theorem exchangeFrom_ne_nil (fuel sent : Nat) (m : Method) (b : BodyKind) (rs : 
     simp only
     split
     · simp
-    · split <;> simp
+    · split
+      · simp
+      · split <;> simp
 
 /-- the caller of an exchange sees success only if the LAST physical request of the exchange was
     answered 2xx -/
